@@ -49,6 +49,9 @@ def U(name, harness, entry, **kw):
     return u
 
 
+TMPDIR_FOR_TOOLS = None
+
+
 def run(cmd, timeout, mem_gb, cwd=None, stdout=None):
     def lim():
         if mem_gb:
@@ -56,7 +59,10 @@ def run(cmd, timeout, mem_gb, cwd=None, stdout=None):
             resource.setrlimit(resource.RLIMIT_AS, (b, b))
         os.setsid()
     t0 = time.time()
-    p = subprocess.Popen(cmd, cwd=cwd, stdout=subprocess.PIPE if stdout is None else stdout, stderr=subprocess.PIPE, preexec_fn=lim)
+    env = dict(os.environ)
+    if TMPDIR_FOR_TOOLS:
+        env["TMPDIR"] = TMPDIR_FOR_TOOLS  # cbmc's SMT problem files land in the run's work directory and are removed with it
+    p = subprocess.Popen(cmd, cwd=cwd, stdout=subprocess.PIPE if stdout is None else stdout, stderr=subprocess.PIPE, preexec_fn=lim, env=env)
     try:
         out, err = p.communicate(timeout=timeout)
         return p.returncode, (out or b"").decode("utf-8", "replace"), (err or b"").decode("utf-8", "replace"), time.time() - t0
@@ -590,6 +596,9 @@ def main():
     t0 = time.time()
     wd = ROOT / ".work" / ("%s.%d" % (pid, os.getpid()))
     wd.mkdir(parents=True, exist_ok=True)
+    global TMPDIR_FOR_TOOLS
+    (wd / "tmp").mkdir(exist_ok=True)
+    TMPDIR_FOR_TOOLS = str(wd / "tmp")
     known = load_known()
     results = []
     try:
